@@ -464,7 +464,9 @@ def run(chk):
     from .. import merge as _merge
     chk.guard(_merge.apply, chk, "C17-R9", ["irispie.sequentials._simulate"])
     from .. import unused as _unused
-    chk.guard(_unused.apply, chk, "C17-R91")
+    chk.guard(_unused.apply, chk, "C17-R91", extra_modules=("irispie.plans.simulation_plans", "irispie.plans.transforms"))
+    from .. import slatables as _slatables
+    chk.guard(_slatables.apply, chk, "C17-R10", (("irispie.sequentials._slatable_protocols", "Inlay.slatable_for_simulate"),))
     from .. import args as _args
     chk.guard(_args.apply, chk, "C17-R90", {'explanatories', 'plans', 'sequentials'}, 1)
     chk.assumptions = [
